@@ -137,6 +137,7 @@ Definition FLs (n : nat) (s : fsstmt) : Prop :=
   forall k lbl G rho th st t st' A e ae,
     inv G rho th st ->
     check_stmt data codata defs G s = None -> ub_stmt (cids G) s = true -> ib_stmt m0 s = true ->
+    nc_stmt (cvars G) s = true ->
     shrink_stmt k (mksenv D codata lbl) (rn_stmt rho s) st = SOk (t, st') ->
     pfresh A t = true -> lifted_in st' ->
     erel p q n (fun x => occurs x s) (fun x => th (rho x)) A G e ae ->
